@@ -90,7 +90,7 @@ def make_reporter(kind):
         return MultiTestResult(w, TestResult()), w, None, set()
     if kind == 5:
         w = TagLoggingExtended()
-        return Tagger(w, {"x"}, set()), w, None, {"x"}
+        return Tagger(w, iter(["x"]), iter(())), w, None, {"x"}      # any iterable, also a one-shot one
     if kind == 6:
         w = TagLoggingExtended()
         sink = doubles.StreamResult()
